@@ -8,6 +8,9 @@ spec -> code: every arrangement (query schema x entry schema x data variant) TLC
               Tabular.tla is replayed on Dense (row and column constructed) and Frame, and through extract.Slicer
 code -> spec: seeded random requests beyond the constants (<= 5 query fields, <= 7 entry columns, 5 kinds, random values and
               containers) are served by the real code and the recorded outcomes validated by specs/TraceEntry.tla
+payload:      a served payload is any layout.Tabular, fully described by its cells (specs/EntrySelect.tla): every arrangement is
+              also served after every row selection made by the real take_rows (SelectionCommutes), and as a Frame whose rows
+              carry labels of their own (named / reversed / repeated - what a decoded request or a selection leaves behind)
 """
 import datetime
 import json
@@ -24,6 +27,22 @@ BASE = datetime.date(2020, 1, 1)
 KIND_NAMES = {'int': 'Integer', 'flt': 'Float', 'str': 'String', 'date': 'Date', 'ts': 'Timestamp'}
 ROUTES = ('reader', 'rowdriver', 'tabledriver')
 CONTAINERS = ('frame', 'dense_rows', 'dense_columns')
+# row labels a pandas frame may carry (a matrix has none: they must not matter) - default 0..n-1, client-chosen names, the
+# positions backwards (what take_rows leaves behind), one label repeated
+LABELLED = ('frame_named', 'frame_reversed', 'frame_repeated')
+PAYLOADS = ('frame', 'dense_rows', 'frame_named', 'dense_columns', 'frame_reversed', 'frame_repeated')
+
+
+def row_labels(impl, n):
+    """The DataFrame index of a Frame payload of n rows (None = pandas' default)."""
+    if impl == 'frame_named':
+        return [f'r{i + 1}' for i in range(n)]
+    if impl == 'frame_reversed':
+        return list(range(n - 1, -1, -1))
+    if impl == 'frame_repeated':
+        return [7] * n
+    assert impl == 'frame'
+    return None
 
 
 # ------------------------------------------------------------------------------------------ abstract <-> concrete values
@@ -163,8 +182,8 @@ def make_entry(e, d, container):
     from forml.io import dsl, layout
     schema = dsl.Schema.from_fields(*(dsl.Field(kind_of(k), name=f'c{nm}') for nm, k in e), title='Request')
     rows = [[concrete(v) for v in row] for row in d]
-    if container == 'frame':
-        data = layout.Frame(pandas.DataFrame(rows, columns=[f'c{nm}' for nm, _ in e]))
+    if container.startswith('frame'):
+        data = layout.Frame(pandas.DataFrame(rows, columns=[f'c{nm}' for nm, _ in e], index=row_labels(container, len(rows))))
     elif not rows:
         data = layout.Dense(numpy.empty((0, len(e)), dtype=object))
     elif container == 'dense_rows':
@@ -179,10 +198,11 @@ def cells(major):
     return [[project(cell) for cell in line] for line in major]
 
 
-def serve(q, e, d, route, container, flavour):
-    """Run one arrangement through the real code; -> {'res': ok|refused|illformed|crash, 'rows': [[den...]], 'why': str}."""
+def serve(q, e, d, route, container, flavour, sel=None):
+    """Run one arrangement through the real code; -> {'res': ok|refused|illformed|crash, 'rows': [[den...]], 'why': str}.
+    With sel (1-based index list) the payload served is the selection take_rows(sel) of the table holding d."""
     import forml
-    from forml.io import dsl
+    from forml.io import dsl, layout
     from forml.io._input import extract
     try:
         entry = make_entry(e, d, container)
@@ -190,6 +210,8 @@ def serve(q, e, d, route, container, flavour):
         return {'res': 'illformed', 'rows': [], 'why': type(exc).__name__}
     stmt = make_statement(q, flavour)
     try:
+        if sel is not None:
+            entry = layout.Entry(entry.schema, entry.data.take_rows([i - 1 for i in sel]))
         if route == 'reader':
             table = reader()(stmt, entry)
             rows = cells(table.to_rows())
@@ -238,11 +260,13 @@ def pmap(name, jobs, procs=4):
     return [o for part in out for o in part]
 
 
-def describe(q, e, d, got, allowed):
+def describe(q, e, d, got, allowed, sel=None):
     qs = ', '.join(f'c{n}:{k}' for n, k in q)
     es = ', '.join(f'c{n}:{k}' for n, k in e)
     want = ' | '.join(_show(o) for o in allowed)
-    return f'query ({qs}) entry ({es}) rows {[[concrete(v) for v in r] for r in d]}: delivered {_show(got)} {got.get("why", "")} expected {want}'
+    picked = '' if sel is None else f'.take_rows({[i - 1 for i in sel]})'
+    return (f'query ({qs}) entry ({es}) rows {[[concrete(v) for v in r] for r in d]}{picked}: delivered {_show(got)} '
+            f'{got.get("why", "")} expected {want}')
 
 
 def _show(out):
@@ -264,11 +288,12 @@ def _text(cell):
 
 
 # ------------------------------------------------------------------------------------------------- TLC configuration
-def cfg_entry(path, spec, kinds, pool, maxq, maxe, nrows, nvar, dup, rule, export, invariants):
+def cfg_entry(path, spec, kinds, pool, maxq, maxe, nrows, nvar, dup, rule, export, invariants, maxsel=None):
     with open(path, 'w') as fh:
         fh.write(f'SPECIFICATION {spec}\nCONSTANTS Kinds = {{{", ".join(json.dumps(k) for k in kinds)}}}\n Pool = {pool}\n'
                  f' MaxQ = {maxq}\n MaxE = {maxe}\n NRows = {nrows}\n NVariants = {nvar}\n AllowDup = {"TRUE" if dup else "FALSE"}\n'
-                 + (f' CastRule = "{rule}"\n ExportOn = {"TRUE" if export else "FALSE"}\n' if rule else ''))
+                 + (f' CastRule = "{rule}"\n ExportOn = {"TRUE" if export else "FALSE"}\n' if rule else '')
+                 + (f' MaxSel = {maxsel}\n' if maxsel is not None else ''))
         for inv in invariants:
             fh.write(f'INVARIANT {inv}\n')
         fh.write('CHECK_DEADLOCK FALSE\n')
@@ -279,6 +304,7 @@ BUILD = ['Declare', 'Seal', 'Supply', 'Fill']
 STRUCTURAL = ['Decided', 'RefusedWhenIncomplete', 'ServedWhenComplete', 'ShapeIsQuery', 'ColumnsByName', 'IndicesAligned']
 NUMERIC = ('int', 'flt', 'str')
 TEMPORAL = ('date', 'ts', 'str')
+SELECTING = ['PayloadIsSelection', 'SelectionCommutes', 'RowPerRow']
 
 
 def vectors_of(res):
@@ -289,7 +315,7 @@ def vectors_of(res):
         out.append(rec)
     if not out:
         raise tlc.MachineryError('MatchEntryImpl.tla exported no vector')
-    out.sort(key=lambda r: json.dumps([r['q'], r['e'], r['d']]))  # TLC workers print in any order
+    out.sort(key=lambda r: json.dumps([r['q'], r['e'], r['d'], r.get('picked', False), r.get('ix', [])]))  # TLC workers print in any order
     return out
 
 
@@ -307,7 +333,8 @@ def take_index_domain(chk):
     rows = [[10 * r + c for c in range(m)] for r in range(n)]
     tables = {'dense-from-rows': lambda: layout.Dense.from_rows(rows),
               'dense-from-columns': lambda: layout.Dense.from_columns([list(c) for c in zip(*rows)]),
-              'frame': lambda: layout.Frame(pandas.DataFrame(rows, columns=['k0', 'k1']))}
+              'frame': lambda: layout.Frame(pandas.DataFrame(rows, columns=['k0', 'k1'])),
+              'frame-with-row-labels': lambda: layout.Frame(pandas.DataFrame(rows, columns=['k0', 'k1'], index=[2, 0, 1]))}
     ok = 0
     for rec in recs:
         for name, make in tables.items():
@@ -386,39 +413,58 @@ def classify(chk, vec, got, route, container, flavour):
     allowed = vec['allowed']
     if plain(got) in allowed:
         return True
-    what = describe(vec['q'], vec['e'], vec['d'], got, allowed)
+    sel = vec['ix'] if vec.get('picked') else None
+    rows = vec['base'] if vec.get('picked') else vec['d']
+    what = f'[{route}/{container}] ' + describe(vec['q'], vec['e'], rows, got, allowed, sel)
     # input class of the known finding, decided by TLC on the input alone (MiscastClass); the failure must also be the
     # one the as-is model predicts at that call site, anything else is a new violation
     finding = FINDING if vec['inclass'] and plain(got) == vec['asis'] else None
-    chk.fail(what, {'kind': 'entry', 'q': vec['q'], 'e': vec['e'], 'd': vec['d'], 'route': route, 'container': container,
+    chk.fail(what, {'kind': 'entry', 'q': vec['q'], 'e': vec['e'], 'd': rows, 'sel': sel, 'route': route, 'container': container,
                     'flavour': flavour, 'allowed': allowed, 'observed': got}, finding=finding)
     return False
 
 
 def replay_vectors(chk, tmp):
     """spec -> code: every exported arrangement through the real reader."""
-    # (kinds, names, query fields, entry columns, rows, data variants, repeated names)
-    runs = [(NUMERIC, 4, 3, 3, 2, 1, False), (TEMPORAL, 3, 2, 3, 2, 1, False), (NUMERIC, 3, 2, 3, 1, 1, True)]
+    # (kinds, names, query fields, entry columns, rows, data variants, repeated names, longest row selection or None)
+    runs = [(NUMERIC, 4, 3, 3, 2, 1, False, None), (TEMPORAL, 3, 2, 3, 2, 1, False, None), (NUMERIC, 3, 2, 3, 1, 1, True, None),
+            (NUMERIC, 3, 2, 2, 3, 1, False, 2)]
     if not chk.quick:
-        runs = [(NUMERIC, 4, 3, 4, 2, 1, False), (NUMERIC, 5, 2, 4, 1, 1, False), (TEMPORAL, 4, 2, 3, 2, 2, False),
-                (NUMERIC, 3, 2, 3, 1, 1, True)]
+        runs = [(NUMERIC, 4, 3, 4, 2, 1, False, None), (NUMERIC, 5, 2, 4, 1, 1, False, None), (TEMPORAL, 4, 2, 3, 2, 2, False, None),
+                (NUMERIC, 3, 2, 3, 1, 1, True, None), (NUMERIC, 3, 2, 3, 3, 1, False, 3), (TEMPORAL, 3, 2, 2, 3, 2, False, 2)]
     total = drift = 0
     stats = {'ok': 0, 'refused': 0, 'illformed': 0}
     first = True
-    for kinds, pool, mq, me, nrows, nvar, dup in runs:
-        cfg = cfg_entry(os.path.join(tmp, f'export-{kinds[0]}-{pool}-{int(dup)}.cfg'), 'ImplSpec', kinds, pool, mq, me, nrows, nvar,
-                        dup, 'asis', True, STRUCTURAL + ['Export'])
-        res = chk.tlc('MatchEntryImpl', cfg, require=BUILD + ['ServeImpl'], workers=4, timeout=2400)
+    selected = {'vectors': 0, 'selections': 0}
+    for kinds, pool, mq, me, nrows, nvar, dup, maxsel in runs:
+        name = f'export-{kinds[0]}-{pool}-{int(dup)}-{maxsel}.cfg'
+        if maxsel is None:
+            cfg = cfg_entry(os.path.join(tmp, name), 'ImplSpec', kinds, pool, mq, me, nrows, nvar, dup, 'asis', True,
+                            STRUCTURAL + ['Export'])
+            res = chk.tlc('MatchEntryImpl', cfg, require=BUILD + ['ServeImpl'], workers=4, timeout=2400)
+        else:  # the payload is a row selection of the rows filled in: EntrySelect.tla over the rule of the current code
+            cfg = cfg_entry(os.path.join(tmp, name), 'SelSpec', kinds, pool, mq, me, nrows, nvar, dup, 'aligned', True,
+                            STRUCTURAL + ['ValuesCast'] + SELECTING + ['ExportSel'], maxsel)
+            res = chk.tlc('EntrySelect', cfg, require=['Arrange', 'Select', 'ServeSel'], workers=4, timeout=2400)
         vectors = vectors_of(res)
         queries = sum(len(kinds) ** n for n in range(1, mq + 1))
         entries = sum((pool ** n if dup else math.perm(pool, n)) * len(kinds) ** n for n in range(1, me + 1))
-        if len(vectors) != queries * entries * nvar:  # every served state exactly once (no line lost between TLC workers)
-            raise tlc.MachineryError(f'{len(vectors)} vectors exported for {queries * entries * nvar} arrangements')
+        payloads = 1 if maxsel is None else 1 + sum(nrows ** n for n in range(maxsel + 1))  # as filled in + every index list
+        if len(vectors) != queries * entries * nvar * payloads:  # every served state exactly once (no line lost between workers)
+            raise tlc.MachineryError(f'{len(vectors)} vectors exported for {queries * entries * nvar * payloads} arrangements')
         check_roundtrip(vectors)
-        plans = [(ROUTES[n % 3], CONTAINERS[(n // 3 + n // 7) % 3], n // 5) for n in range(len(vectors))]
-        outcomes = pmap('serve', [(v['q'], v['e'], v['d'], *p) for v, p in zip(vectors, plans)])
+        plans = [(ROUTES[n % 3], PAYLOADS[(n // 3 + n // 7) % len(PAYLOADS)], n // 5) for n in range(len(vectors))]
+        jobs = [(v['q'], v['e'], v['base'], *p, v['ix']) if v.get('picked') else (v['q'], v['e'], v['d'], *p)
+                for v, p in zip(vectors, plans)]
+        outcomes = pmap('serve', jobs)
         for n, (vec, (route, container, flavour), got) in enumerate(zip(vectors, plans, outcomes)):
             total += 1
+            if vec.get('picked'):
+                # binding of the selection: the matrix TLC judged is the selection of the base the driver made the payload from
+                if vec['d'] != [vec['base'][i - 1] for i in vec['ix']]:
+                    raise tlc.MachineryError(f'EntrySelect.tla exported a payload that is not its selection: {vec}')
+                selected['vectors'] += 1
+                selected['selections'] += vec['ix'] != list(range(1, nrows + 1))
             if classify(chk, vec, got, route, container, flavour):
                 chk.validated()
                 stats[got['res']] += 1
@@ -426,6 +472,7 @@ def replay_vectors(chk, tmp):
                     drift += 1
                 if n % 1999 == 7:
                     chk.sample({'query': vec['q'], 'entry': vec['e'], 'rows': [[concrete(v) for v in r] for r in vec['d']],
+                                'payload': container, 'selected': vec['ix'] if vec.get('picked') else None,
                                 'delivered': got['res'] if got['res'] != 'ok' else got['rows']})
         if first:  # binding self-test: a delivered table with two columns swapped must not be among the allowed outcomes
             first = False
@@ -433,7 +480,21 @@ def replay_vectors(chk, tmp):
                        and v['allowed'][0]['rows'][0][0] != v['allowed'][0]['rows'][0][1])
             bad = {'res': 'ok', 'rows': [[r[1], r[0]] + r[2:] for r in vec['allowed'][0]['rows']]}
             chk.selftest('swapped_columns_rejected', bad not in vec['allowed'])
+        if maxsel is not None and 'row_binding' not in selected:
+            # binding self-tests: for a payload selected in another order than its base, what is right for the base order
+            # (rows not following the selection), a padded and a cropped table must not be among the allowed outcomes
+            selected['row_binding'] = True
+            vec = next(v for v in vectors if v.get('picked') and len(v['ix']) == 2 and v['ix'][0] > v['ix'][1]
+                       and len(v['q']) >= 2 and v['allowed'][0]['res'] == 'ok' and len(v['allowed']) == 1
+                       and v['allowed'][0]['rows'][0] != v['allowed'][0]['rows'][1])
+            rows = vec['allowed'][0]['rows']
+            chk.selftest('rows_in_base_order_rejected', {'res': 'ok', 'rows': rows[::-1]} not in vec['allowed'])
+            chk.selftest('padded_rows_rejected', {'res': 'ok', 'rows': rows + rows[:1]} not in vec['allowed'])
+            chk.selftest('cropped_rows_rejected', {'res': 'ok', 'rows': rows[:1]} not in vec['allowed'])
+    if not selected.pop('row_binding', False):
+        raise tlc.MachineryError('no selected payload replayed')
     chk.extra['entry_vectors_replayed'] = total
+    chk.extra['entry_payload_selections'] = selected
     chk.extra['entry_outcomes'] = stats
     chk.extra.setdefault('impl_model_drift', {})['conforming_outcomes_not_predicted_by_asis_model'] = drift
 
@@ -500,6 +561,11 @@ def _castable_string(rnd, target):
     return rnd.choice((['str', 'd', rnd.randint(0, 90) * 10], ['str', 't', rnd.randint(0, 90) * 10 + rnd.randint(0, 9)]))
 
 
+def picked_rows(d, sel):
+    """The matrix of the payload: the rows themselves or their selection (1-based index list)."""
+    return d if sel is None else [d[i - 1] for i in sel]
+
+
 def as_records(q, e, d, out):
     rec = lambda v: {'t': v[0], 's': v[1], 'n': v[2]}
     return {'q': [{'name': n, 'kind': k} for n, k in q], 'e': [{'name': n, 'kind': k} for n, k in e],
@@ -516,19 +582,27 @@ def random_observations(chk, rnd):
             for val in row:
                 if project(concrete(val)) != den(val):
                     raise tlc.MachineryError(f'value translation does not round-trip: {val}')
-        cases.append((q, e, d, rnd.choice(ROUTES), rnd.choice(CONTAINERS), rnd.randint(0, 1)))
+        # the payload: built from the request rows, or (2 of 5) a row selection of them made by the real take_rows -
+        # the observation handed to TLC is the matrix of the payload, however it was obtained
+        sel = [rnd.randint(1, len(d)) for _ in range(rnd.randint(0, 4))] if d and rnd.random() < 0.4 else None
+        cases.append((q, e, d, rnd.choice(ROUTES), rnd.choice(PAYLOADS), rnd.randint(0, 1), sel))
     cases = [(*job, got) for job, got in zip(cases, pmap('serve', cases))]
     # binding self-tests: corrupted observations appended to the batch must be rejected by TLC
     q0 = [(1, 'int'), (2, 'str')]
     e0 = [(2, 'str'), (1, 'str')]
     d0 = [[['str', 'x', 1], ['str', 'i', 30]]]
+    d2 = d0 + [[['str', 'x', 2], ['str', 'i', 40]]]
     corrupt = [
         ('uncast_value_rejected', (q0, e0, d0, {'res': 'ok', 'rows': [[['str', 'i', 30], ['str', 'x', 1]]]})),
         ('entry_order_rejected', (q0, e0, d0, {'res': 'ok', 'rows': [[['str', 'x', 1], ['num', '-', 30]]]})),
         ('padded_missing_column_rejected', (q0, [(2, 'str')], [[['str', 'x', 1]]], {'res': 'ok', 'rows': [[['str', 'x', 1], ['str', 'x', 1]]]})),
+        # values attached to another row / a row too many (what label alignment of a frame does to a selected payload)
+        ('misaligned_rows_rejected', (q0, e0, d2, {'res': 'ok', 'rows': [[['num', '-', 30], ['str', 'x', 2]], [['num', '-', 40], ['str', 'x', 1]]]})),
+        ('padded_rows_rejected', (q0, e0, d2, {'res': 'ok', 'rows': [[['num', '-', 30], ['str', 'x', 1]], [['num', '-', 40], ['str', 'x', 2]],
+                                                                     [['num', '-', 30], ['str', 'x', 1]]]})),
     ]
     good = (q0, e0, d0, {'res': 'ok', 'rows': [[['num', '-', 30], ['str', 'x', 1]]]})
-    batch = [as_records(q, e, d, got) for q, e, d, _, _, _, got in cases]
+    batch = [as_records(q, e, picked_rows(d, sel), got) for q, e, d, _, _, _, sel, got in cases]
     batch += [as_records(*c) for _, c in corrupt] + [as_records(*good)]
     verdicts = {}
     size = 4000
@@ -544,7 +618,7 @@ def random_observations(chk, rnd):
     if verdicts[len(batch)][0] != 1:  # the uncorrupted twin of the corrupted observations must pass
         raise tlc.MachineryError('TraceEntry rejects the control observation')
     drift_asis = drift_aligned = inclass = 0
-    for i, (q, e, d, route, container, flavour, got) in enumerate(cases, start=1):
+    for i, (q, e, d, route, container, flavour, sel, got) in enumerate(cases, start=1):
         accepted, cls, is_asis, is_aligned, silent = verdicts[i]
         if silent:
             raise tlc.MachineryError(f'generator produced an input the requirement is silent on: {q} {e} {d}')
@@ -555,12 +629,15 @@ def random_observations(chk, rnd):
             drift_aligned += 1 - is_aligned
             if i % 997 == 1:
                 chk.sample({'query': q, 'entry': e, 'rows': [[concrete(v) for v in r] for r in d], 'route': route,
+                            'payload': container, 'selected': sel,
                             'delivered': got['res'] if got['res'] != 'ok' else got['rows']})
         else:
-            what = f'[{route}/{container}] ' + describe(q, e, d, got, [])
-            chk.fail(what, {'kind': 'entry', 'q': q, 'e': e, 'd': d, 'route': route, 'container': container, 'flavour': flavour,
-                            'observed': got}, finding=FINDING if cls and is_asis else None)
-    chk.extra['random_requests'] = {'count': len(cases), 'in_known_finding_class': inclass}
+            what = f'[{route}/{container}] ' + describe(q, e, d, got, [], sel)
+            chk.fail(what, {'kind': 'entry', 'q': q, 'e': e, 'd': d, 'sel': sel, 'route': route, 'container': container,
+                            'flavour': flavour, 'observed': got}, finding=FINDING if cls and is_asis else None)
+    chk.extra['random_requests'] = {'count': len(cases), 'in_known_finding_class': inclass,
+                                    'payload_selected_by_take_rows': sum(c[6] is not None for c in cases),
+                                    'payload_frames_with_row_labels': sum(c[4] in LABELLED for c in cases)}
     chk.extra.setdefault('impl_model_drift', {}).update({'accepted_random_outcomes_not_predicted_by_asis_model': drift_asis,
                                                          'accepted_random_outcomes_not_predicted_by_aligned_model': drift_aligned})
 
@@ -596,8 +673,8 @@ def build_table(impl, nr, nc):
     import pandas
     from forml.io import layout
     rows = [[cell_value(10 * i + j) for j in range(1, nc + 1)] for i in range(1, nr + 1)]
-    if impl == 'frame':
-        return layout.Frame(pandas.DataFrame(rows, columns=[f'k{j}' for j in range(nc)]))
+    if impl.startswith('frame'):
+        return layout.Frame(pandas.DataFrame(rows, columns=[f'k{j}' for j in range(nc)], index=row_labels(impl, nr)))
     if impl == 'dense_rows':
         return layout.Dense.from_rows(rows)
     return layout.Dense.from_columns([list(c) for c in zip(*rows)])
@@ -679,9 +756,9 @@ def tabular(chk, tmp):
         jobs = []
         for n, state in enumerate(states):
             # single selections on all three tables; Slicer applications and second selections on all three for every
-            # 4th / 3rd state and on one of them (rotating) otherwise
+            # 4th / 3rd state and on one of them or on a frame with row labels of its own (rotating) otherwise
             every = len(state['hist']) <= 1 and not state['sliced']['done'] or n % (4 if state['sliced']['done'] else 3) == 0
-            for impl in (CONTAINERS if every else (CONTAINERS[n % 3],)):
+            for impl in (CONTAINERS if every else ((CONTAINERS + LABELLED)[(n // 3) % 6],)):
                 jobs.append((n, impl))
         results = pmap('table_job', [(impl, nr, nc, states[n]['hist']) for n, impl in jobs])
         for (n, impl), seen in zip(jobs, results):
@@ -752,7 +829,7 @@ def replay(chk, path):
     if rep['kind'] == 'entry':
         q = [tuple(f) for f in rep['q']]
         e = [tuple(f) for f in rep['e']]
-        got = serve(q, e, rep['d'], rep['route'], rep['container'], rep['flavour'])
+        got = serve(q, e, rep['d'], rep['route'], rep['container'], rep['flavour'], rep.get('sel'))
         print('observed now:', got)
         allowed = rep.get('allowed')
         if allowed is None:
